@@ -13,11 +13,11 @@ import (
 // Real APU through the Mapper and audio.EndMachineCycle, in lock-step with ref.APU.
 
 type apuPair struct {
-	m      *machine.M
-	mod    *ref.APU
-	lastFS uint64
+	m       *machine.M
+	mod     *ref.APU
+	lastFS  uint64
 	sinceFS int // machine cycles since the last observed frame-sequencer step (-1: none observed yet)
-	cycles int
+	cycles  int
 }
 
 func newAPUPair() *apuPair {
